@@ -211,6 +211,63 @@ impl Elem for u32 {
     }
 }
 
+// ---------------------------------------------------------------- F (a `u32` whose `==` is not reflexive for one value)
+//
+// Like a float with NaN: `F(NAN) != F(NAN)`.  `Eq` / `Ord` are implemented (the algorithms need them) although `==` breaks
+// reflexivity for that one value — legal, and exactly what array equality has to respect: `a == a` is false for an array that
+// holds such a cell (slice equality compares element by element).  No ledger.
+
+pub const NAN: u32 = 4242424242;
+
+#[derive(Clone, Copy, Default, Debug)]
+pub struct F(pub u32);
+
+impl PartialEq for F {
+    fn eq(&self, o: &Self) -> bool {
+        self.0 == o.0 && self.0 != NAN
+    }
+}
+impl Eq for F {}
+impl PartialOrd for F {
+    fn partial_cmp(&self, o: &Self) -> Option<Ordering> {
+        Some(self.cmp(o))
+    }
+}
+impl Ord for F {
+    fn cmp(&self, o: &Self) -> Ordering {
+        self.0.cmp(&o.0)
+    }
+}
+impl Hash for F {
+    fn hash<H: Hasher>(&self, h: &mut H) {
+        self.0.hash(h)
+    }
+}
+impl Serialize for F {
+    fn serialize<S: Serializer>(&self, s: S) -> Result<S::Ok, S::Error> {
+        s.serialize_u32(self.0)
+    }
+}
+impl<'de> Deserialize<'de> for F {
+    fn deserialize<D: Deserializer<'de>>(d: D) -> Result<Self, D::Error> {
+        u32::deserialize(d).map(F)
+    }
+}
+impl Elem for F {
+    fn mk(v: u32) -> Self {
+        F(v)
+    }
+    fn val(&self) -> u32 {
+        self.0
+    }
+    fn bump(&mut self, by: u32) {
+        self.0 = self.0.wrapping_add(by);
+    }
+    fn ledger_tokens() -> String {
+        "- 0 0".to_string()
+    }
+}
+
 // ---------------------------------------------------------------- E (cell)
 
 pub struct E {
